@@ -5,7 +5,9 @@ import (
 	"fmt"
 	"reflect"
 	"runtime"
+	"sort"
 	"testing"
+	"time"
 	"unsafe"
 
 	"github.com/philpearl/avro"
@@ -125,6 +127,19 @@ func runC10A(c retainCase) (bool, []string, error) {
 		return false, nil, fmt.Errorf("ReadFile: %v", rerr)
 	}
 	verify("after ReadFile returned")
+	if failure == nil {
+		// "disjoint from every other live allocation": what the records still open point
+		// to (pointer targets, slice backing arrays) never overlaps
+		var spans []memSpan
+		for _, k := range all {
+			if k.open {
+				collectSpans(k.v, fmt.Sprintf("record[%d]", k.index), &spans)
+			}
+		}
+		if err := spansDisjoint(spans); err != nil {
+			failure = err
+		}
+	}
 	if c.SecondRead && failure == nil {
 		// more decoding after the first read ended (possibly early): new banks are
 		// taken from the pool, blocks are decompressed into fresh buffers
@@ -482,4 +497,67 @@ func TestC10B(t *testing.T) {
 	col := stats.New("C10")
 	col.Rule = c10Rule
 	propCheck(t, col, "c10b", drawBankCase, runC10B)
+}
+
+// memSpan is a piece of memory a decoded value owns through a pointer or a slice.
+type memSpan struct {
+	lo, hi uintptr
+	what   string
+}
+
+// collectSpans walks a decoded value and records the target of every non-nil
+// pointer and the backing array of every non-empty slice (strings are left out:
+// they are immutable and may legitimately share storage). Zero-size targets
+// are left out too (Go gives them all the same address).
+func collectSpans(v reflect.Value, path string, out *[]memSpan) {
+	switch v.Kind() {
+	case reflect.Ptr:
+		if v.IsNil() {
+			return
+		}
+		if sz := v.Type().Elem().Size(); sz > 0 {
+			*out = append(*out, memSpan{v.Pointer(), v.Pointer() + sz, path})
+		}
+		collectSpans(v.Elem(), "*"+path, out)
+	case reflect.Slice:
+		if v.Len() == 0 {
+			return
+		}
+		if sz := v.Type().Elem().Size(); sz > 0 {
+			*out = append(*out, memSpan{v.Pointer(), v.Pointer() + uintptr(v.Len())*sz, path})
+		}
+		if k := v.Type().Elem().Kind(); k == reflect.Ptr || k == reflect.Slice || k == reflect.Struct || k == reflect.Map || k == reflect.Array {
+			for i := 0; i < v.Len(); i++ {
+				collectSpans(v.Index(i), fmt.Sprintf("%s[%d]", path, i), out)
+			}
+		}
+	case reflect.Array:
+		for i := 0; i < v.Len(); i++ {
+			collectSpans(v.Index(i), fmt.Sprintf("%s[%d]", path, i), out)
+		}
+	case reflect.Struct:
+		if v.Type() == reflect.TypeOf(time.Time{}) {
+			return
+		}
+		for i := 0; i < v.NumField(); i++ {
+			if v.Type().Field(i).IsExported() {
+				collectSpans(v.Field(i), path+"."+v.Type().Field(i).Name, out)
+			}
+		}
+	case reflect.Map:
+		it := v.MapRange()
+		for it.Next() {
+			collectSpans(it.Value(), fmt.Sprintf("%s[%q]", path, it.Key().String()), out)
+		}
+	}
+}
+
+func spansDisjoint(spans []memSpan) error {
+	sort.Slice(spans, func(i, j int) bool { return spans[i].lo < spans[j].lo })
+	for i := 1; i < len(spans); i++ {
+		if spans[i].lo < spans[i-1].hi {
+			return fmt.Errorf("two live allocations overlap: %s (%#x-%#x) and %s (%#x-%#x)", spans[i-1].what, spans[i-1].lo, spans[i-1].hi, spans[i].what, spans[i].lo, spans[i].hi)
+		}
+	}
+	return nil
 }
